@@ -605,6 +605,14 @@ def _const_flags(fn):
             out.add(nm)
         elif len(ds) == 1 and ds[0][0] == "assign" and ds[0][3]["k"] == "binop" and ds[0][3].get("op") in CMP_OPS:
             out.add(nm)
+    # compiler temporaries of the same kind (`matches!(x, P)`, short-circuit `&&` / `||` results)
+    named = {l for nm, l, pj in fn.var_places if not pj}
+    for l, loc in enumerate(fn.locals):
+        if l in named or l <= fn.arg_count or loc["ty"] != "bool" or loc.get("user"):
+            continue
+        ds = fn.defs(l)
+        if len(ds) >= 2 and all(d[0] == "assign" and d[3]["k"] == "use" and d[3]["op"].get("k") == "const" for d in ds):
+            out.add("_%d" % l)
     return out
 
 
